@@ -14,6 +14,7 @@ def names():
     out = list(base)
     for b in base:
         short = b.split(".")[-1]
+        out += [short, short.upper(), short.capitalize(), "odata." + short, "Edm." + short]      # a namespaced built-in WITHOUT its namespace is another name
         out += [b.upper(), b.capitalize(), b[:-1], b + "x", "geo." + short, "Geo." + short, "my." + short, "a.b." + short, "geo.x." + short]
     out += ["foo", "f.g", "x.y.z", "geo.foo", "matchespattern", "geo.Distance", "odata.concat", "Concat"]
     # names that a Unicode normaliser (NFKC / NFKD / case folding) would turn into a built-in: one inner letter replaced by a compatibility character
@@ -27,7 +28,16 @@ def names():
                 if unicodedata.normalize("NFKC", v) == short or unicodedata.normalize("NFKC", v).lower() == short:
                     out.append((ns + "." if ns else "") + v)
                     break
-    out += ["g\u1d49o.distance", "g\u1d49o.length", "g\u1d49o.nosuch", "ge\u00ba.distance"]
+    # a namespaced built-in with its dot MANGLED into identifier characters (the spelling of a handler / attribute name): an un-namespaced name that is not in the table
+    for b in base:
+        if "." in b:
+            ns, _, short = b.rpartition(".")
+            for sepr in ("__", "_", "___", "_dot_", ""):
+                out += [ns + sepr + short, (ns + sepr + short).upper(), "my." + ns + sepr + short]
+            out += [short + "__" + ns, ns + "__" + short + "__", "__" + ns + "__" + short, ns + "." + ns + "__" + short, ns + "__" + ns + "." + short]
+    for b in base[:6]:
+        out += ["__" + b, b + "__", "_" + b, b + "_", "func_" + b, "visit_" + b, "sqlfunc_" + b, "djangofunc_" + b]
+    out += ["g\u1d49o.distance","g\u1d49o.length", "g\u1d49o.nosuch", "ge\u00ba.distance"]
     return list(dict.fromkeys(out))
 
 def gen_cases(ctx):
